@@ -240,7 +240,22 @@ def _s_hazards(spec):
     mods = spec.get("mods") or []
     if any(json.dumps(_round6(m[1])) != json.dumps(m[1]) and _round6(m[1]) != m[1] for m in mods):
         hz.append(("numround",))
+    if _stale_nested(spec):
+        hz.append(("stalenested",))
     return hz
+
+
+def _stale_nested(spec):
+    """indices of the modifications of a path BELOW a whole attribute that was modified earlier and is restored before the
+    shutdown: their original entries survive the restore of the whole attribute (F-C14j)"""
+    mods = spec.get("mods") or []
+    restored = set(spec.get("restore") or [])
+    out = []
+    for j, m in enumerate(mods):
+        toks = str(m[0]).split(".")
+        if len(toks) > 1 and toks[0] in restored and any(str(mods[i][0]) == toks[0] for i in range(j)):
+            out.append(j)
+    return out
 
 
 def _s_repair(spec, hz):
@@ -250,10 +265,13 @@ def _s_repair(spec, hz):
         n["st"] = _retype(n["st"])
     elif hz[0] == "numround":
         n["mods"] = [[m[0], _round6(m[1])] for m in n["mods"]]
+    elif hz[0] == "stalenested":
+        drop = set(_stale_nested(n))
+        n["mods"] = [m for j, m in enumerate(n["mods"]) if j not in drop]
     return n
 
 
-_S_CLASS = {"typekey": "type-key-in-state", "numround": "number-rounded-to-6-digits"}
+_S_CLASS = {"typekey": "type-key-in-state", "numround": "number-rounded-to-6-digits", "stalenested": "stale-nested-after-whole-restore"}
 
 
 # Harmless rewrites of the anchored code that the check must NOT alarm on (each built as a mutated object file in scratch,
@@ -281,8 +299,9 @@ class C14(Check):
     prop = "C14"
     required_theorems = ["modify_restore_partial", "modify_restore_absent_counterexample", "modify_restore_below_counterexample",
                          "modify_restore_emptydict_counterexample", "restore_clears_original", "modify_restore_meets_spec_partial",
+                         "whole_modify_restore_identity", "nested_whole_restore_meets_spec",
                          "modification_survives_restart", "modifications_survive_restart",
-                         "serialize_id", "deserialize_id_partial", "state_roundtrip_partial", "state_roundtrip_counterexample", "restart_meets_spec", "kill_meets_spec",
+                         "serialize_id", "deserialize_id_partial", "typed_objects_roundtrip", "typed_model_refines_tree_model", "restart_getters_meet_spec", "typed_objects_safe_mode_counterexample", "stale_nested_original_counterexample", "state_roundtrip_partial", "state_roundtrip_counterexample", "restart_meets_spec", "kill_meets_spec",
                          "crash_old_or_new", "crash_old_or_new_conforming", "complete_write_reads_new", "crash_leaves_only_tmp", "atomic_write_conforms"]
     technique = ("Lean 4 proof (round-trip law composed with C20's JSON/netstring theorems, algebra of modify/restore on value trees, invariant over "
                  "the system-call sequence of AtomicFile under an adversarial crash model) about hand-written executable models; correspondence by "
@@ -291,6 +310,12 @@ class C14(Check):
     level_text = ("Machine-checked theorems (Lean 4 kernel): restore(modify(o,p,v),p) = o for every object, path and value where p names an existing non-dictionary "
                   "value (or a top-level attribute) and nothing at or below p is already modified, and restore removes every original entry at/below the path; any list of such modifications on pairwise unrelated paths (made in attribute-string order) "
                   "is written by DumpModifiedAttributes exactly and its replay at start-up reproduces the object exactly; "
+                  "modifying and restoring a whole top-level attribute gives back exactly the same object INCLUDING every original entry of the modifications outstanding below it "
+                  "(whole_modify_restore_identity, any recorded originals), and the four-step trace modify f.k..; modify f; restore f; restore f.k.. of a never-modified object returns to the initial tree and "
+                  "satisfies specM, whose state now keeps the modifications subsumed by a whole-attribute modification dormant and demands their restorability again once the whole attribute is back (nested_whole_restore_meets_spec); "
+                  "for every getter-view tree (typed objects such as CheckResult/PerfdataValue and plain dictionaries nested in arrays/dictionaries to any depth) Deserialize(Serialize(t), safe_mode=false) = t: "
+                  "objects come back as objects of their type at every depth, while safe mode degrades them (typed_objects_roundtrip, typed_objects_safe_mode_counterexample), the typed model agrees with the tree model on everything Serialize shows "
+                  "(typed_model_refines_tree_model) and the model's restart of any well-formed getter record satisfies specRestartPinned (restart_getters_meet_spec); "
                   "for every list of objects whose state trees name only registered types in `type` keys and EVERY chunking of the state file, reading the frames, "
                   "JSON-decoding and deserialising onto freshly created objects yields exactly the dumped state (C20's json_roundtrip and "
                   "frames_split_regardless_of_chunking composed with Serialize/Deserialize); for every prefix of AtomicFile's system-call sequence and every crash "
@@ -298,7 +323,7 @@ class C14(Check):
                   "two whole-trace theorems tie these to the executable specification: restart_meets_spec (for every object list and chunking the model's restart satisfies specRestartState and "
                   "specRestartPinned - every attribute the statement names, pinned per type in Spec.lean, is in the record with the identical value - given that the pinned attributes are among the "
                   "dumped fields, which clause stateInventory checks against the type reflection of the running binary on every run) and kill_meets_spec (for every prefix of AtomicFile's calls the "
-                  "classified read satisfies specCrash, `completed` exactly for the full sequence). "
+                  "classified read satisfies specCrash, `completed` exactly for the full sequence, with and without a previous version of the file: for a path that did not exist the only outcomes are absent or complete-new). "
                   " The full statements are false of the pinned code in several ways (F-C14a-d,g and C17's number rounding), carried as kernel-checked counterexamples "
                   "and/or corpus witnesses replayed on the real code on every run; EVERY failing generated case is minimised and attributed to a known finding only "
                   "if repairing that recorded hazard in the minimised witness and re-running makes the failure vanish. The models are tied to the code by running the real functions on the same inputs "
@@ -307,8 +332,10 @@ class C14(Check):
                   "durability (parameters of the crash model). Assumed, fuzzed by C20: binary64 <-> text. Not modelled: the ConfigWriter/DSL text of the "
                   "modified-attributes script (C17; which entries are written with which values and their replay ARE modelled and diffed on every S case; numbers and dictionary keys whose text does not read "
                   "back enter as oracles computed with the real writer+compiler), field types/validation, a user dictionary whose `type` names a registered type (reproduced: instantiated as that type, "
-                  "recorded under F-C14c), Start()/OnStateLoaded effects after the restore, the API/cluster/external-command entry points of ModifyAttribute, the kill points of a runtime object's "
-                  "config file through its real caller (ConfigObjectUtility::CreateObject; AtomicFile::Write itself is crash-tested).")
+                  "recorded under F-C14c), Start()/OnStateLoaded effects after the restore, the API/cluster/external-command entry points of ModifyAttribute. "
+                  "Since round 4 driven and killed at every call: ConfigObjectUtility::CreateObject writing a runtime object's config file (kind createobj), and the first-time "
+                  "writes of the state file / modified-attributes file / AtomicFile::Write onto a path without previous version (kinds statenew, modattrnew, writenew); a descriptor opened on the target "
+                  "path itself is tracked like the temp file. The object/dictionary distinction of nested state values is observed through the getters (tag @object), modelled (deserializeT) and diffed.")
     trusted_base = [
         "modelled, not verified: ConfigObject::ModifyAttribute/RestoreAttribute on value trees (deep-clone semantics), Serialize/Deserialize on trees with the `type` special case, "
         "DumpObjects/RestoreObject framing, AtomicFile's call sequence (mkstemp, chmod, write*, fsync, close, rename)",
@@ -317,6 +344,8 @@ class C14(Check):
         "a Dictionary is a key-sorted association list; `dSet` on an existing key replaces in place, otherwise inserts in key order (identical to std::map on sorted lists)",
         "typed fields convert Empty to their zero value (notes \"\", check_interval 0): applied by the driver to the model's result",
         "the harness injects process kills (exit inside the k-th intercepted call, also after half of a write's bytes), not power loss",
+        "a typed object is recognised in the getter view by the harness's tag member `@object` (GetterTree); the model instantiates a dictionary with a registered `type` "
+        "keeping its members (DeserializeObject's field filtering/defaults are not modelled: the state generator only nests objects Serialize produced itself)",
         "the list of attributes the statement names (pinnedState in Spec.lean: Host/Service 26/28, Notification 9, Downtime 3, User 1, CheckResult 16) is hand-pinned; their "
         "FAState flags are read from Type::GetFieldInfo of the running binary (I lines) and their values through GetField, independent of Serialize's attribute mask",
     ]
@@ -337,6 +366,9 @@ class C14(Check):
             "writer must quote: leading digits, keywords, punctuation) -> DumpObjects + DumpModifiedAttributes -> freshly exec'ed process -> same "
             "config -> RestoreObjects + ActivateItems(withModAttrs) -> Serialize compared AND the pinned attributes compared through their getters; crash points: EVERY intercepted call (plus half-written writes) of DumpObjects, "
             "DumpModifiedAttributes and AtomicFile::Write, a forked child dies inside it, the parent reads the file and loads it with the real loader in another child. "
+            "round 4: modify/restore cases with a directed pattern (modify leaves below vars, modify vars as a whole once or twice, restore vars, restore the leaves; counter `reactivated`); "
+            "restart specs with PerfdataValue OBJECTS inside performance_data and below dictionaries/arrays of executions (counter s_obj_in_array) and with a nested modification, a whole-attribute modification and the "
+            "restore of the latter before the shutdown (s_restored_above); kill kinds writenew/statenew/modattrnew (no previous file) and createobj (real ConfigObjectUtility::CreateObject into a scratch _api package). "
             "evaluations = operations + restarts + kills; a case is non-trivial (distinct by hash of its operation lines, counted by the Lean driver) when it restored a "
             "modified path, went through a restart, or is a write with kill points")
     _last_driver = []
@@ -680,7 +712,8 @@ class C14(Check):
         res.extra = {"faults_fired_per_syscall": {k[6:]: v for k, v in stats.items() if k.startswith("fault_")}}
         self._collect(res, lines, save, harness, driver, "generated")
         need = {"s_restored_before_dump": 4, "s_too_deep": 1, "s_notification": 5, "s_downtime": 5, "s_user": 3, "s_comment": 1,
-                "s_writer_keys": 10, "inventories": 7, "inventory_pinned": 60, "s_modattrs": 20}
+                "s_writer_keys": 10, "inventories": 7, "inventory_pinned": 60, "s_modattrs": 20,
+                "s_obj_in_array": 5, "s_restored_above": 3, "kills_no_previous": 12, "kills_create_object": 8, "reactivated": 20}
         short = {k: stats.get(k, 0) for k, v in need.items() if stats.get(k, 0) < v}
         if stats.get("state_file_max_bytes", 0) < 2 * 65536:
             short["state_file_max_bytes"] = stats.get("state_file_max_bytes", 0)
